@@ -413,13 +413,20 @@ end Adsb.Gen
     # the pure integer functions, translated to Lean definitions (Gen/Fns.lean); when the source has left the fragment the translator
     # handles, the generated file states that as an obligation that cannot be met, so that exactly the theorems resting on it fail
     import rust2lean
+    def stub(e):
+        return ("import Adsb.MiniRust\n/-! GENERATED: tools/rust2lean.py could not translate the current source: %s -/\n"
+                "theorem Adsb.Gen.source_outside_translated_fragment : False := by decide\n" % str(e).replace("-/", "- /"))
     try:
-        fns = rust2lean.generate(read)
+        fns, crcfn = rust2lean.generate(read)
     except rust2lean.Unsupported as e:
-        fns = ("import Adsb.MiniRust\n/-! GENERATED: tools/rust2lean.py could not translate the current source: %s -/\n"
-               "theorem Adsb.Gen.source_outside_translated_fragment : False := by decide\n" % str(e).replace("-/", "- /"))
-    pf = os.path.join(OUT, "Fns.lean")
-    if not os.path.exists(pf) or open(pf).read() != fns: open(pf, "w").write(fns)
+        # which of the two files is affected is not known here: translate them separately
+        try: fns = rust2lean.generate(read, only="fns")[0]
+        except rust2lean.Unsupported as e1: fns = stub(e1)
+        try: crcfn = rust2lean.generate(read, only="crc")[1]
+        except rust2lean.Unsupported as e2: crcfn = stub(e2).replace("source_outside_translated_fragment", "crc_source_outside_translated_fragment")
+    for name, txt in (("Fns.lean", fns), ("CrcFn.lean", crcfn)):
+        pf = os.path.join(OUT, name)
+        if not os.path.exists(pf) or open(pf).read() != txt: open(pf, "w").write(txt)
     # bit offsets of the plain deku structs (Gen/Layout.lean), with the widths of the custom readers taken from the translated functions
     rb = {}
     for key, pat in (("Altitude.alt", r"def ac12SrcBits : Nat := (\d+)"), ("AC13Field.0", r"def ac13SrcBits : Nat := (\d+)"), ("IdentityCode.0", r"def identitySrcBits : Nat := (\d+)")):
